@@ -1,5 +1,7 @@
 """C09 — decoration is transparent for single elements; kwargs reach every call."""
 import collections.abc
+import contextlib
+import io
 import gc
 import numpy as np
 from harness import core, pipelib
@@ -62,7 +64,27 @@ def arg_zoo():
         ('generator', gen()), ('list-iterator', iter([])), ('range-iterator', iter(range(3))), ('map', map(abs, [1])),
         ('zip', zip([1], [2])), ('enumerate', enumerate([1])), ('proper-iterator', ProperIterator()), ('reversed', reversed([1, 2])),
         ('dict-iterator', iter({'a': 1})), ('filter', filter(None, [1])),
+        # classes whose INSTANCES are iterators are not iterators themselves; neither is an object that answers every attribute
+        ('class-zip', zip), ('class-map', map), ('class-enumerate', enumerate), ('class-count', __import__('itertools').count),
+        ('class-proper-iterator', ProperIterator), ('answers-everything', AnswersEverything()), ('instance-dunder-next', InstanceNext()),
+        ('fraction', __import__('fractions').Fraction(1, 3)), ('decimal', __import__('decimal').Decimal('1.5')), ('big-int', 2 ** 200),
+        ('np-bool', np.bool_(True)), ('nd-empty', np.array([])), ('nd-size1', np.array([5])), ('exception-instance', ValueError('as a value')),
     ]
+
+
+class AnswersEverything:
+    """an attribute bag / proxy: hasattr(x, anything) is true — but its TYPE has no __next__, so it is not an iterator"""
+    def __getattr__(self, name):
+        if name.startswith('__') and name.endswith('__') and name not in ('__next__', '__iter__'):
+            raise AttributeError(name)
+        return lambda *a, **k: None
+
+
+class InstanceNext:
+    """__next__ / __iter__ only in the instance dict: the iterator protocol looks at the type"""
+    def __init__(self):
+        self.__dict__['__next__'] = lambda: 1
+        self.__dict__['__iter__'] = lambda: self
 
 
 class Boom(Exception):
@@ -117,9 +139,11 @@ def element_cases(ctx):
             nworkers = rng.choice([0, 1, 3])
             skipNone = rng.random() < 0.5
             f = rng.choice([f_identity, f_raise, f_raise_odd])
-            P = pipeline(nworkers, skipNone=skipNone, extracache=rng.choice([0, 2]))(f)
+            verbose = rng.random() < 0.3
+            P = pipeline(nworkers, skipNone=skipNone, extracache=rng.choice([0, 2]), verbose=verbose)(f)
             is_iter = hasattr(type(arg), '__iter__') and hasattr(type(arg), '__next__')   # the ABC rule, stated independently
-            case = dict(arg_kind=name, kwargs={k: repr(v) for k, v in kw.items()}, nworkers=nworkers, skipNone=skipNone, func=f.__name__)
+            case = dict(arg_kind=name, kwargs={k: repr(v) for k, v in kw.items()}, nworkers=nworkers, skipNone=skipNone, func=f.__name__,
+                        verbose=verbose)
             ctx.case((name, sorted(kw), nworkers, skipNone, f.__name__, rep), (not is_iter and isinstance(arg, collections.abc.Iterable)) or bool(kw),
                      sample=case if rep == 0 else None)
             ctx.count('argkind:' + ('iterator' if is_iter else 'element'))
@@ -130,9 +154,13 @@ def element_cases(ctx):
             except (Boom, TwoArgExc, HandleExc) as e:
                 want = ('exc',) + exc_signature(e)
             try:
-                got = ('ok', P(arg, **kw))
+                with pipelib.time_limit(20), contextlib.redirect_stdout(io.StringIO()):
+                    got = ('ok', P(arg, **kw))
             except (Boom, TwoArgExc, HandleExc) as e:
                 got = ('exc',) + exc_signature(e)
+            except pipelib.HarnessTimeout as e:
+                got = ('no-answer', str(e))
+                pipelib.kill_children()
             except Exception as e:  # noqa
                 got = ('other-exc', repr(e))
             lines.append('pipe.call ' + ('iterator' if is_iter else 'element'))
@@ -166,6 +194,84 @@ def element_cases(ctx):
             ctx.disagree('call-dispatch-equals-model', case, impl, ml)
 
 
+def _shift(x, offset=0):
+    return ('shift', x, offset)
+
+
+def _wrapper_with_extra_keyword():
+    import functools
+
+    @functools.wraps(_shift)
+    def wrapper(x, *, scale=1, **kw):
+        r = _shift(x, **kw)
+        return (r[0], r[1] * scale, r[2])
+    return wrapper
+
+
+class CallableObject:
+    def __call__(self, x, *, weight, **kw):
+        return ('obj', x, weight, tuple(sorted(kw.items())))
+
+
+def _kwonly(x, *, required, other=5):
+    return ('kwonly', x, required, other)
+
+
+def _signature_run(which, nworkers, kw, xs):
+    """runs in a forked child: stream with keyword arguments through a callable whose signature is not the plain def f(x, **kw)"""
+    import functools
+    from generatorpipeline import pipeline
+    f = {'wraps': _wrapper_with_extra_keyword(), 'partial': functools.partial(_kwonly, other=7), 'callable-object': CallableObject(),
+         'kwonly': _kwonly, 'builtin': divmod, 'lambda-defaults': (lambda x, a=1, *rest, **kw: (x, a, rest, tuple(sorted(kw.items()))))}[which]
+    P = pipeline(nworkers)(f)
+    want = []
+    for x in xs:
+        try:
+            want.append(('ok', f(x, **kw)))
+        except Exception as e:  # noqa
+            want.append(('exc', type(e).__name__))
+            break
+    got = []
+    try:
+        for r in P(iter(xs), **kw):
+            got.append(('ok', r))
+    except Exception as e:  # noqa
+        got.append(('exc', type(e).__name__))
+    one = None
+    try:
+        one = ('ok', P(xs[0], **kw))
+    except Exception as e:  # noqa
+        one = ('exc', type(e).__name__)
+    return dict(want=want, got=got, one=one)
+
+
+def signature_cases(ctx):
+    """the keyword arguments of a stream call go to every per-element call exactly as given — whatever the callable's signature looks
+    like from outside (functools.wraps, partial, callable objects, keyword-only parameters, builtins without a signature)"""
+    rng = ctx.rng
+    plans = [('wraps', {'scale': 3, 'offset': 10}), ('wraps', {'offset': 2}), ('partial', {'required': 1}), ('partial', {'required': 1, 'other': 9}),
+             ('callable-object', {'weight': 2, 'extra': 'e'}), ('kwonly', {'required': 'r'}), ('kwonly', {}), ('kwonly', {'unknown': 1, 'required': 0}),
+             ('lambda-defaults', {'a': 5, 'zz': 1}), ('builtin', {})]
+    for which, kw in plans:
+        nworkers = rng.choice([0, 0, 2])
+        xs = [(7, 2)] if which == 'builtin' else [1, 2, 3]
+        if which == 'builtin':
+            continue        # divmod takes two positionals: not a one-argument function, kept out
+        case = dict(signature=which, kwargs={k: repr(v) for k, v in kw.items()}, nworkers=nworkers)
+        ctx.case(('signature', which, sorted(kw), nworkers), bool(kw), sample=case)
+        ctx.count('signature:' + which)
+        st, r = pipelib.isolated(_signature_run, (which, nworkers, kw, xs), timeout=40)
+        if st == 'timeout':
+            st, r = pipelib.isolated(_signature_run, (which, nworkers, kw, xs), timeout=40)
+        if st != 'ok':
+            ctx.fail('signature-case-fails', 'stream through a %s callable: %s %s' % (which, st, str(r)[-300:]), case)
+            continue
+        if r['got'] != r['want']:
+            ctx.fail('kwargs-not-forwarded', 'stream through a %s callable with %r: got %s, the undecorated calls give %s' % (which, kw, r['got'], r['want']), case)
+        elif r['one'] != r['want'][0]:
+            ctx.fail('element-call-not-transparent', 'decorated(x, **%r) on a %s callable gave %s, undecorated %s' % (kw, which, r['one'], r['want'][0]), case)
+
+
 def kwargs_streams(ctx):
     rng = ctx.rng
     cases = []
@@ -174,7 +280,8 @@ def kwargs_streams(ctx):
         n = rng.choice([1, 3, 6, 10])
         cfg = c01.rand_cfg(rng, parallel=rng.random() < 0.7)
         cases.append(dict(cfg=cfg, n=n, tail=None, table=c01.rand_table(rng, n, zoo=False), fkind=rng.choice(['module', 'lambda', 'closure']),
-                          kwargs=rng.choice(kwsets), schedule=None, demand=['N*'], label='kwargs'))
+                          kwargs=rng.choice(kwsets), schedule=None, demand=['N*'], label='kwargs',
+                          hint=rng.choice([None, None] + pipelib.HINTS)))
     for c, r, m in c01.execute(cases):
         with ctx.guard(c):
             c01.judge(ctx, c, r, m)
@@ -255,12 +362,15 @@ def check(ctx):
     element_cases(ctx)
     kwargs_streams(ctx)
     interleaved_cases(ctx)
+    signature_cases(ctx)
 
 
 def replay(ctx, data):
     case = data['case']
     if case.get('interleaved'):
         interleaved_cases(ctx)
+    elif 'signature' in case:
+        signature_cases(ctx)
     elif 'arg_kind' in case:
         element_cases(ctx)
     else:
